@@ -235,7 +235,7 @@ def expected(C, model):
         typed = [(u.type, u.string) for u in unfold_search(s)]
         sid = Sid(s)
         typed_direct = typed
-        if sid and not sid.is_search() and not C["ref"].is_search_text(s) and "?" not in sid.string:
+        if sid and not sid.is_search() and not C["ref"].is_search_text(s) and "?" not in s and s.split("/")[-1] not in C["ref"].alias:
             typed_direct = [(sid.type, sid.string)]
         exp["find"][s] = [sorted(st.do_find("paths", typed_direct)[0]), sorted(st.do_find("all", typed)[0])]
     # tree inventory: entity paths, their ancestor folders, sidecars that hold data
